@@ -594,6 +594,10 @@ namespace bluetoe {
                     return;
                 }
             }
+
+            // nothing was transmitted, so no confirmation will arrive for a dequeued indication
+            if ( pending.first == details::notification_queue_entry_type::indication )
+                connection.indication_confirmed();
         }
 
         out_size = 0;
